@@ -11,11 +11,12 @@ import (
 // A15 ACCUMULATE/FLUSH typestate of the M3 batching loop (shared by C12 and C13).
 //
 // Discovered roles (nothing is located by name except the anchor fields):
-//   loop    the loop whose header receives from reporter.metCh
-//   elem    the dequeued element (a sizedMetric)
-//   B       the header phi holding the open batch ([]Metric), C the header phi holding its bytes
-//   APP     append(<B-chain>, <metric of elem>)       ADD  <C-chain> + <size of elem>
-//   FL      call of the emit-and-empty function with the batch      CHK  <C-chain>+size (>|>=) freeBytes
+//
+//	loop    the loop whose header receives from reporter.metCh
+//	elem    the dequeued element (a sizedMetric)
+//	B       the header phi holding the open batch ([]Metric), C the header phi holding its bytes
+//	APP     append(<B-chain>, <metric of elem>)       ADD  <C-chain> + <size of elem>
+//	FL      call of the emit-and-empty function with the batch      CHK  <C-chain>+size (>|>=) freeBytes
 type batchLoop struct {
 	fn       *ssa.Function
 	recv     *ssa.UnOp
